@@ -1492,10 +1492,14 @@ zshPrefixLoop:
 		default:
 			break zshPrefixLoop
 		}
-		next, after := p.peekTwo()
+		// Peek one byte first; the second byte only matters for a doubled
+		// prefix, and asking for it earlier would block an interactive
+		// reader at the end of a line like `echo $^`.
+		next := p.peek()
 		state := OptOn
 		check := next
 		if rune(next) == p.r {
+			_, after := p.peekTwo()
 			state = OptOff
 			check = after
 		}
